@@ -1,5 +1,6 @@
 import sys
 import os
+import collections
 
 from ..helpers.extended_json import ejson
 
@@ -29,7 +30,10 @@ def stream(file=sys.stdout):
         write(package.pkg.descriptor)
         yield package.pkg
         for res in package:
-            yield res_writer(res)
+            writer = res_writer(res)
+            yield writer
+            # a later step may stop reading this resource before its end: the rest is read (and written) here
+            collections.deque(writer, maxlen=0)
             # nothing may stay in the file object's buffer: were the flow to fail now, the buffered separator
             # would be written whenever that object is finalised, possibly into a checkpoint committed later
             file.write('\n')
